@@ -670,7 +670,7 @@ func isWord(s string) bool {
 // resets the column and advances the line by one.
 func columnC05(c *Ctx) {
 	p := c.P
-	c.Rule("C05.column", "reader.read is the only writer of the running position; it stores into the column either 0 or the old column plus the constant 1 (one per character, whatever its encoded length) and into the line only the old line plus 1")
+	c.Rule("C05.column", "every store into the reader's running position writes into the column either 0 or the old column plus the constant 1 (one per character, whatever its encoded length) and into the line only the old line plus 1")
 	read := p.SSAFunc(p.Method("reader", "read"))
 	if read == nil {
 		c.Unk("C05.column", "(*reader).read", 0, "anchor not found")
@@ -694,10 +694,6 @@ func columnC05(c *Ctx) {
 				}
 				fld := fieldNameOf(fa)
 				key := fmt.Sprintf("%s: store into pos.%s #%d", fn.Name(), fld, countKey(&n))
-				if fn != read {
-					c.Bad("C05.column", key, st.Pos(), "the running position is written outside reader.read")
-					continue
-				}
 				val := st.Val
 				if k, ok := val.(*ssa.Const); ok && k.Value != nil {
 					if fld == "Char" && constant.Sign(k.Value) == 0 {
